@@ -7,7 +7,8 @@ the model assumes the two agree — that they always do is a theorem (`Props/C39
 Every method returns the object after the call together with the value returned or the
 exception raised (`Res`).  The code modelled is /repo + fixes/D23-*.patch, D39a, D39b
 (lodict overrides of create/sift/insert/pop/reorder, modict.update from a dict,
-modict.popitem/poplistitem, modict.get, odict.reorder(self)).
+modict.popitem/poplistitem, modict.get, odict.reorder(self), modict.__reduce__, oset.copy; all committed in
+/repo) + fixes/D39e (odict.__reversed__/__or__/__ior__).
 
 Core Lean only (the driver links this file).
 -/
@@ -215,6 +216,7 @@ inductive Op (K V : Type)
   | sift (fields : Option (List K)) | insert (i : Int) (k : K) (v : V)
   | pop (k : K) (dflt : Option V) | popitem | reorder (other : OD K V) | reorderBad
   | setdefault (k : K) (dflt : V) | update (ps : List (K × V)) | eq (other : OD K V)
+  | reversed | ior (ps : List (K × V)) | or (ps : List (K × V))   -- `reversed(d)`, `d |= other`, `d | other` (fix D39e)
   deriving Repr
 
 inductive Out (K V : Type)
@@ -263,6 +265,9 @@ def step (s : OD K V) : Op K V → OD K V × Out K V
   | .setdefault k dflt => let r := s.setdefault k dflt; (r.1, .ofVal r.2)
   | .update ps => (s.update ps, .none)
   | .eq o => (s, .bool (s.eq o))
+  | .reversed => (s, .keys s.keys.reverse)
+  | .ior ps => (s.update ps, .none)
+  | .or ps => (s, match s.copy with | .ok c => .obj (c.update ps) | .error e => .err e)
 
 end OD
 
@@ -370,6 +375,11 @@ def step (s : OD K V) : Op K V → OD K V × Out K V
   | .setdefault k dflt => let r := setdefault lower s k dflt; (r.1, .ofVal r.2)
   | .update ps => let r := update lower s ps; (r.1, .ofUnit r.2)
   | .eq o => (s, .bool (s.eq o))
+  | .reversed => (s, .keys s.keys.reverse)
+  | .ior ps => let r := update lower s ps; (r.1, .ofUnit r.2)
+  | .or ps => (s, match copy lower s with
+      | .ok c => (match update lower c ps with | (c', .ok ()) => .obj c' | (_, .error e) => .err e)
+      | .error e => .err e)
 
 end LOD
 
@@ -627,6 +637,7 @@ inductive MOp (K V : Type)
   | popitem (last : Bool) (index : Int) | poplistitem (last : Bool)
   | fromkeys (seq : List K) (dflt : V) | update (ps : List (K × V)) | updateFrom (other : OD K (List V))
   | create (ps : List (K × V)) | eq (other : OD K (List V))
+  | reversed | ior (ps : List (K × V)) | or (ps : List (K × V))   -- inherited from odict (fix D39e)
   deriving Repr
 
 inductive MOut (K V : Type)
@@ -676,6 +687,9 @@ def step (s : MDict K V) : MOp K V → MDict K V × MOut K V
   | .updateFrom o => let r := updateFrom s o; (r.1, outOf (fun _ => .none) r.2)
   | .create ps => (create s ps, .none)
   | .eq o => (s, .bool (OD.eq s o))
+  | .reversed => (s, .keys s.keys.reverse)
+  | .ior ps => (update s ps, .none)
+  | .or ps => (s, match copy s with | .ok c => .obj (update c ps) | .error e => .err e)
 
 end MD
 
